@@ -65,8 +65,7 @@ Definition C17_typeref_sites_full : Prop := forall s, In s sites -> code_safe (s
 
 (* every type_name / get_type_name_identifier call of the generator either does not produce code (build-time message,
    debug print, quoted text), or produces an identifier reference (get_type_name_identifier, clean_id), or renders a
-   constant chosen by the library - except the sites listed as known findings (default_dialect in the lazy stubs,
-   the type arguments of a GenericSerializableType) *)
+   constant chosen by the library - except the sites listed as a known finding (default_dialect in the lazy stubs) *)
 Theorem C17_typeref_sites_partial : forall s,
   In s sites -> known_raw (s_form s) = false -> code_safe (s_form s) = true.
 Proof. exact sites_partial. Qed.
@@ -76,14 +75,26 @@ Theorem C17_typeref_sites_refuted : ~ C17_typeref_sites_full.
 Proof. exact sites_full_refuted. Qed.
 Print Assumptions C17_typeref_sites_refuted.
 
-(* both kinds of known raw site really occur (the table is not vacuous about them) *)
+(* the known raw sites really occur (the table is not vacuous about them) *)
 Theorem C17_typeref_known_raw_witnesses :
-  (exists s, In s sites /\ s_form s = FRaw ADialect) /\ (exists s, In s sites /\ s_form s = FRaw ATypeArgs).
+  exists s, In s sites /\ s_form s = FRaw ADialect.
 Proof.
-  split.
-  - pose proof sites_dialect_witness as W. apply existsb_exists in W as (s & Hin & E). exists s. split; [exact Hin | apply form_eqb_eq; exact E].
-  - pose proof sites_typeargs_witness as W. apply existsb_exists in W as (s & Hin & E). exists s. split; [exact Hin | apply form_eqb_eq; exact E].
+  pose proof sites_dialect_witness as W. apply existsb_exists in W as (s & Hin & E). exists s. split; [exact Hin | apply form_eqb_eq; exact E].
 Qed.
+
+(* the type arguments of a GenericSerializableType are identifier references (repaired; was known finding
+   generic-serializable-local-type-arg) *)
+Theorem C17_generic_serializable_typerefs_are_identifiers : forall s,
+  In s sites -> (s_func s = "pack_generic_serializable_type"%string \/ s_func s = "unpack_generic_serializable_type"%string) ->
+  s_form s = FIdentCall.
+Proof.
+  intros s Hin Hf.
+  assert (H : forallb (fun s => negb (String.eqb (s_func s) "pack_generic_serializable_type" || String.eqb (s_func s) "unpack_generic_serializable_type")
+                               || form_eqb (s_form s) FIdentCall) sites = true) by (vm_compute; reflexivity).
+  rewrite forallb_forall in H. specialize (H s Hin).
+  destruct Hf as [Hf | Hf]; rewrite Hf in H; simpl in H; apply form_eqb_eq; exact H.
+Qed.
+Print Assumptions C17_generic_serializable_typerefs_are_identifiers.
 Print Assumptions C17_typeref_known_raw_witnesses.
 
 (* unpack_collection (deque / defaultdict / ... ): every type reference is an identifier reference; the defaultdict
